@@ -10,13 +10,33 @@ pub const LOOPV: [&str; 6] = ["I", "J", "K", "L", "M", "N"];
 pub const WHILEV: [&str; 4] = ["W1", "W2", "W3", "W4"];
 pub const FNS: [&str; 3] = ["FNA", "FNB", "FNC"];
 pub const PARAMS: [&str; 3] = ["X", "Y", "A"];
+pub const SVARS: [&str; 3] = ["A$", "S$", "T9$"];
 /// Marker variable of the stack-shape monitor (never used by generated code itself).
 pub const MARKER: &str = "Z9";
 /// Pass counter of looped programs.
 pub const PASSES: &str = "Z8";
 
 #[derive(Clone, Debug, PartialEq)]
+pub enum SE {
+    Lit(String),
+    Var(String),
+    Cat(Box<SE>, Box<SE>),
+    Left(Box<SE>, i64),
+    Right(Box<SE>, i64),
+    /// MID$(s, position >= 1 [, length])
+    Mid(Box<SE>, i64, Option<i64>),
+    /// STR$(numeric expression)
+    Str(Box<E>),
+}
+
+#[derive(Clone, Debug, PartialEq)]
 pub enum E {
+    /// LEN(s)
+    Len(Box<SE>),
+    /// string comparison, yields -1 / 0
+    SCmp(Box<SE>, &'static str, Box<SE>),
+    /// INSTR(s, non-empty literal)
+    Instr(Box<SE>, String),
     N(i64),
     /// n/4 written as a decimal literal (0.25, 2.5, ...)
     Q(i64),
@@ -30,12 +50,23 @@ pub enum E {
 pub enum Item {
     S(String),
     E(E),
+    /// a string expression
+    X(SE),
+}
+
+/// One DATA constant.
+#[derive(Clone, Debug, PartialEq)]
+pub enum Datum {
+    N(i64),
+    S(String),
 }
 
 #[derive(Clone, Debug, PartialEq)]
 pub enum St {
     Print(Vec<Item>, bool),
     Let(String, E, bool),
+    /// string assignment
+    LetS(String, SE),
     Goto(usize),
     Gosub(usize),
     Return,
@@ -49,7 +80,7 @@ pub enum St {
     Stop,
     Rem(String, bool),
     Read(Vec<String>),
-    Data(Vec<i64>),
+    Data(Vec<Datum>),
     Restore(Option<usize>),
     Def(usize, Vec<String>, E),
     Tron,
@@ -89,10 +120,12 @@ pub struct Opts {
     pub input: bool,
     /// fractional (dyadic) constants, `/2`, raw numeric IF / WHILE predicates, fractional STEP
     pub frac: bool,
+    /// string variables, literals, concatenation, LEFT$/RIGHT$/MID$/STR$/LEN/INSTR, string DATA and INPUT
+    pub strings: bool,
 }
 
 impl Opts {
-    pub const NONE: Opts = Opts { data: false, func: false, tron: false, stop: false, max_lines: 40, input: false, frac: false };
+    pub const NONE: Opts = Opts { data: false, func: false, tron: false, stop: false, max_lines: 40, input: false, frac: false, strings: false };
 }
 
 struct G<'a> {
@@ -107,6 +140,8 @@ struct G<'a> {
     fn_arity: Vec<usize>,
     budget: i64,
     input_arity: usize,
+    /// which INPUT positions are string variables
+    input_str: Vec<bool>,
 }
 
 impl<'a> G<'a> {
@@ -119,9 +154,40 @@ impl<'a> G<'a> {
         VARS[self.rng.usize(5)].to_string()
     }
 
+    fn svar(&mut self) -> String {
+        SVARS[self.rng.usize(SVARS.len())].to_string()
+    }
+
+    fn sexpr(&mut self, depth: usize) -> SE {
+        if depth == 0 || self.rng.chance(1, 2) {
+            return if self.rng.coin() {
+                SE::Var(self.svar())
+            } else {
+                SE::Lit(self.rng.pick(&["", "A", "HI", "é→", "x y", "12", "GOTO", "b,c"]).to_string())
+            };
+        }
+        match self.rng.usize(6) {
+            0 | 1 => SE::Cat(Box::new(self.sexpr(depth - 1)), Box::new(self.sexpr(depth - 1))),
+            2 => SE::Left(Box::new(self.sexpr(depth - 1)), self.rng.range(0, 4)),
+            3 => SE::Right(Box::new(self.sexpr(depth - 1)), self.rng.range(0, 4)),
+            4 => SE::Mid(Box::new(self.sexpr(depth - 1)), self.rng.range(1, 4), if self.rng.coin() { Some(self.rng.range(0, 3)) } else { None }),
+            _ => SE::Str(Box::new(self.expr(1, &[]))),
+        }
+    }
+
     fn atom(&mut self, params: &[String]) -> E {
         if !params.is_empty() && self.rng.chance(1, 2) {
             return E::V(self.rng.pick(params).clone());
+        }
+        if self.o.strings && params.is_empty() && self.rng.chance(1, 8) {
+            return match self.rng.usize(3) {
+                0 => E::Len(Box::new(self.sexpr(1))),
+                1 => {
+                    let op = *self.rng.pick(&["<", "=", "<>", ">", "<=", ">="]);
+                    E::SCmp(Box::new(self.sexpr(1)), op, Box::new(self.sexpr(1)))
+                }
+                _ => E::Instr(Box::new(self.sexpr(1)), self.rng.pick(&["A", "I", "é", "x ", "12"]).to_string()),
+            };
         }
         if self.o.frac && self.rng.chance(1, 6) {
             return E::Q(*self.rng.pick(&[1i64, 2, 3, 5, 6, 10, -2, 1, 2]));
@@ -190,7 +256,9 @@ impl<'a> G<'a> {
         let n = self.rng.range(1, 3);
         let mut items = vec![];
         for _ in 0..n {
-            if self.rng.chance(1, 2) {
+            if self.o.strings && self.rng.chance(1, 4) {
+                items.push(Item::X(self.sexpr(2)));
+            } else if self.rng.chance(1, 2) {
                 let words = ["A", "HI", "x", "=", "<>", "GO", "Z9", "é", ".", "#"];
                 items.push(Item::S(self.rng.pick(&words).to_string()));
             } else {
@@ -213,6 +281,10 @@ impl<'a> G<'a> {
     }
 
     fn simple(&mut self) -> St {
+        if self.o.strings && self.rng.chance(1, 5) {
+            let v = self.svar();
+            return St::LetS(v, self.sexpr(2));
+        }
         match self.rng.usize(6) {
             0 | 1 | 2 => self.print(),
             _ => self.assign(),
@@ -259,10 +331,11 @@ impl<'a> G<'a> {
             }
             6 if self.o.data => {
                 let n = self.rng.range(1, 3) as usize;
-                v.push(St::Read((0..n).map(|_| self.var()).collect()));
+                v.push(St::Read((0..n).map(|_| if self.o.strings && self.rng.chance(1, 3) { self.svar() } else { self.var() }).collect()));
             }
             7 | 8 if self.o.input => {
-                let vars = (0..self.input_arity).map(|_| self.var()).collect();
+                let kinds = self.input_str.clone();
+                let vars = kinds.iter().map(|is_s| if *is_s { self.svar() } else { self.var() }).collect();
                 let prompt = match self.rng.usize(3) {
                     0 => None,
                     1 => Some("N".to_string()),
@@ -440,7 +513,17 @@ impl<'a> G<'a> {
                 let n = self.rng.range(1, 4);
                 out.push(Line {
                     label: labels[i],
-                    sts: vec![St::Data((0..n).map(|_| self.rng.range(-9, 99)).collect())],
+                    sts: vec![St::Data(
+                        (0..n)
+                            .map(|_| {
+                                if self.o.strings && self.rng.chance(1, 3) {
+                                    Datum::S(self.rng.pick(&["", "DATA", "a,b", "é", "5"]).to_string())
+                                } else {
+                                    Datum::N(self.rng.range(-9, 99))
+                                }
+                            })
+                            .collect(),
+                    )],
                 });
             } else if kind == 3 && self.o.data {
                 let l = if self.rng.coin() { None } else { Some(usize::MAX) };
@@ -484,8 +567,10 @@ pub fn generate(rng: &mut Rng, o: Opts) -> Prog {
         fn_arity: vec![],
         budget: o.max_lines as i64 / 2,
         input_arity: 1,
+        input_str: vec![],
     };
     g.input_arity = g.rng.range(1, 2) as usize;
+    g.input_str = (0..g.input_arity).map(|_| o.strings && g.rng.chance(1, 3)).collect();
     for _ in 0..nsubs {
         let l = g.label();
         g.sub_labels.push(l);
@@ -569,7 +654,9 @@ pub fn generate(rng: &mut Rng, o: Opts) -> Prog {
                     _ => r.range(0, 12).to_string(),
                 }
             };
-            let good: Vec<String> = (0..g.input_arity).map(|_| field(g.rng)).collect();
+            let sfield = |r: &mut Rng| -> String { r.pick(&["HELLO", " padded ", "\"q,r\"", "", "é→", "\"  keep \"", "12", "a\"b"]).to_string() };
+            let kinds = g.input_str.clone();
+            let good: Vec<String> = kinds.iter().map(|is_s| if *is_s { sfield(g.rng) } else { field(g.rng) }).collect();
             let r = match g.rng.usize(9) {
                 0 => "x".to_string(),
                 1 => format!("{},7", good.join(",")),
@@ -708,8 +795,35 @@ impl<'a> Render<'a> {
         self.sp()
     }
 
+    pub fn sexpr(&mut self, e: &SE) -> String {
+        match e {
+            SE::Lit(t) => format!("\"{}\"", t),
+            SE::Var(v) => self.w(v),
+            SE::Cat(a, b) => {
+                let (x, y) = (self.sexpr(a), self.sexpr(b));
+                let sp = if self.rng.is_some() { self.sp() } else { "" };
+                format!("{}{}+{}", x, sp, y)
+            }
+            SE::Left(a, n) => format!("{}({},{})", self.w("LEFT$"), self.sexpr(a), n),
+            SE::Right(a, n) => format!("{}({},{})", self.w("RIGHT$"), self.sexpr(a), n),
+            SE::Mid(a, p, None) => format!("{}({},{})", self.w("MID$"), self.sexpr(a), p),
+            SE::Mid(a, p, Some(n)) => format!("{}({},{},{})", self.w("MID$"), self.sexpr(a), p, n),
+            SE::Str(x) => format!("{}({})", self.w("STR$"), self.expr(x, 0)),
+        }
+    }
+
     pub fn expr(&mut self, e: &E, parent: u8) -> String {
         match e {
+            E::Len(a) => format!("{}({})", self.w("LEN"), self.sexpr(a)),
+            E::Instr(a, t) => format!("{}({},\"{}\")", self.w("INSTR"), self.sexpr(a), t),
+            E::SCmp(a, op, b) => {
+                let s = format!("{}{}{}", self.sexpr(a), op, self.sexpr(b));
+                if 7 < parent {
+                    format!("({})", s)
+                } else {
+                    s
+                }
+            }
             E::N(n) => {
                 if *n < 0 {
                     format!("({})", n)
@@ -815,6 +929,7 @@ impl<'a> Render<'a> {
                     match it {
                         Item::S(t) => o.push_str(&format!("\"{}\"", t)),
                         Item::E(e) => o.push_str(&self.expr(e, 0)),
+                        Item::X(x) => o.push_str(&self.sexpr(x)),
                     }
                 }
                 if *semi {
@@ -830,6 +945,10 @@ impl<'a> Render<'a> {
                 } else {
                     format!("{}={}", vs, es)
                 }
+            }
+            St::LetS(v, e) => {
+                let es = self.sexpr(e);
+                format!("{}={}", self.w(v), es)
             }
             St::Goto(l) => {
                 let n = self.p.num(*l);
@@ -905,7 +1024,13 @@ impl<'a> Render<'a> {
                 format!("{} {}", self.w("READ"), names.join(","))
             }
             St::Data(ns) => {
-                let v: Vec<String> = ns.iter().map(|n| n.to_string()).collect();
+                let v: Vec<String> = ns
+                    .iter()
+                    .map(|d| match d {
+                        Datum::N(n) => n.to_string(),
+                        Datum::S(t) => format!("\"{}\"", t),
+                    })
+                    .collect();
                 format!("{} {}", self.w("DATA"), v.join(","))
             }
             St::Restore(l) => match l {
@@ -1194,11 +1319,12 @@ fn exact(v: f64) -> bool {
 struct M<'a> {
     p: &'a Prog,
     vars: BTreeMap<String, f64>,
+    svars: BTreeMap<String, String>,
     out: String,
     rpos: usize,
     col: usize,
     stack: Vec<Frame>,
-    data: Vec<(usize, i64)>,
+    data: Vec<(usize, Datum)>,
     dpos: usize,
     fns: BTreeMap<usize, (Vec<String>, E)>,
     tron: bool,
@@ -1227,6 +1353,24 @@ impl<'a> M<'a> {
             return Err(End::Unspec("fn depth"));
         }
         let v: f64 = match e {
+            E::Len(a) => self.seval(a, ln)?.chars().count() as f64,
+            E::SCmp(a, op, b) => {
+                let (x, y) = (self.seval(a, ln)?, self.seval(b, ln)?);
+                let t = |c: bool| if c { -1.0 } else { 0.0 };
+                match *op {
+                    "<" => t(x < y),
+                    "=" => t(x == y),
+                    "<>" => t(x != y),
+                    ">" => t(x > y),
+                    "<=" => t(x <= y),
+                    _ => t(x >= y),
+                }
+            }
+            E::Instr(a, pat) => {
+                let x: Vec<char> = self.seval(a, ln)?.chars().collect();
+                let p: Vec<char> = pat.chars().collect();
+                (0..x.len()).find(|i| x[*i..].starts_with(&p)).map(|i| i as f64 + 1.0).unwrap_or(0.0)
+            }
             E::N(n) => *n as f64,
             E::Q(n) => *n as f64 / 4.0,
             E::V(v) => match env.get(v) {
@@ -1307,6 +1451,35 @@ impl<'a> M<'a> {
             return Err(End::Unspec("magnitude"));
         }
         Ok(v)
+    }
+
+    fn seval(&self, e: &SE, ln: u16) -> R<String> {
+        let none = BTreeMap::new();
+        let take = |s: &str, from: usize, n: usize| -> String { s.chars().skip(from).take(n).collect() };
+        let r = match e {
+            SE::Lit(t) => t.clone(),
+            SE::Var(v) => self.svars.get(v).cloned().unwrap_or_default(),
+            SE::Cat(a, b) => format!("{}{}", self.seval(a, ln)?, self.seval(b, ln)?),
+            SE::Left(a, n) => take(&self.seval(a, ln)?, 0, *n as usize),
+            SE::Right(a, n) => {
+                let t = self.seval(a, ln)?;
+                let len = t.chars().count();
+                take(&t, len.saturating_sub(*n as usize), len)
+            }
+            SE::Mid(a, p, n) => {
+                let t = self.seval(a, ln)?;
+                take(&t, (*p as usize).saturating_sub(1), n.map(|x| x as usize).unwrap_or(usize::MAX))
+            }
+            SE::Str(x) => {
+                let v = self.eval(x, &none, 0, ln)?;
+                let t = Self::numstr(v);
+                t[..t.len() - 1].to_string()
+            }
+        };
+        if r.chars().count() > 4000 {
+            return Err(End::Unspec("string size"));
+        }
+        Ok(r)
     }
 
     fn emit(&mut self, s: &str) {
@@ -1408,6 +1581,10 @@ impl<'a> M<'a> {
                             let v = self.eval(e, &none, 0, ln)?;
                             self.emit(&Self::numstr(v));
                         }
+                        Item::X(x) => {
+                            let t = self.seval(x, ln)?;
+                            self.emit(&t);
+                        }
                     }
                 }
                 if !*semi {
@@ -1422,6 +1599,14 @@ impl<'a> M<'a> {
                     let f = self.stack.iter().filter(|f| matches!(f, Frame::For { .. })).count() as u32;
                     self.shape_log.push((f, self.stack.len() as u32 - f));
                 }
+            }
+            St::LetS(v, e) => {
+                self.kinds.insert("LET$");
+                let t = self.seval(e, ln)?;
+                if t.chars().count() > 255 {
+                    return Err(End::Error("STRING TOO LONG", ln));
+                }
+                self.svars.insert(v.clone(), t);
             }
             St::Goto(l) => {
                 self.kinds.insert("GOTO");
@@ -1564,9 +1749,18 @@ impl<'a> M<'a> {
                     if self.dpos >= self.data.len() {
                         return Err(End::Error("OUT OF DATA", ln));
                     }
-                    let x = self.data[self.dpos].1 as f64;
+                    let d = self.data[self.dpos].1.clone();
                     self.dpos += 1;
-                    self.vars.insert(v.clone(), x);
+                    match (v.ends_with('$'), d) {
+                        (false, Datum::N(x)) => {
+                            self.vars.insert(v.clone(), x as f64);
+                        }
+                        (true, Datum::S(t)) => {
+                            self.kinds.insert("READ$");
+                            self.svars.insert(v.clone(), t);
+                        }
+                        _ => return Err(End::Error("TYPE MISMATCH", ln)),
+                    }
                 }
             }
             St::Restore(l) => match l {
@@ -1603,17 +1797,43 @@ impl<'a> M<'a> {
                         None => return Err(End::Unspec("replies")),
                     };
                     self.rpos += 1;
-                    let fields: Vec<&str> = if vars.len() == 1 { vec![reply.as_str()] } else { reply.split(',').collect() };
-                    let mut vals: Vec<f64> = vec![];
+                    let fields: Vec<String> = if vars.len() == 1 {
+                        vec![reply.clone()]
+                    } else {
+                        // commas inside double quotes do not separate
+                        let mut out = vec![];
+                        let mut cur = String::new();
+                        let mut q = false;
+                        for c in reply.chars() {
+                            match c {
+                                '"' => {
+                                    q = !q;
+                                    cur.push(c);
+                                }
+                                ',' if !q => out.push(std::mem::take(&mut cur)),
+                                _ => cur.push(c),
+                            }
+                        }
+                        out.push(cur);
+                        out
+                    };
+                    enum Fv {
+                        N(f64),
+                        S(String),
+                    }
+                    let mut vals: Vec<Fv> = vec![];
                     let mut ok = fields.len() == vars.len();
                     if ok {
-                        for f in &fields {
+                        for (f, v) in fields.iter().zip(vars.iter()) {
                             let f = f.trim();
-                            if f.is_empty() {
-                                vals.push(0.0);
+                            if v.ends_with('$') {
+                                let t = if f.chars().count() >= 2 && f.starts_with('"') && f.ends_with('"') { &f[1..f.len() - 1] } else { f };
+                                vals.push(Fv::S(t.to_string()));
+                            } else if f.is_empty() {
+                                vals.push(Fv::N(0.0));
                             } else if f.chars().all(|c| c.is_ascii_digit() || c == '.' || c == '-') {
                                 match f.parse::<f64>() {
-                                    Ok(x) if exact(x) && !(x == 0.0 && f.starts_with('-')) => vals.push(x),
+                                    Ok(x) if exact(x) && !(x == 0.0 && f.starts_with('-')) => vals.push(Fv::N(x)),
                                     _ => return Err(End::Unspec("reply")),
                                 }
                             } else {
@@ -1623,8 +1843,15 @@ impl<'a> M<'a> {
                         }
                     }
                     // fields before the bad one have been assigned already when the reply is rejected
-                    for (v, x) in vars.iter().zip(vals.iter()) {
-                        self.vars.insert(v.clone(), *x);
+                    for (v, x) in vars.iter().zip(vals.into_iter()) {
+                        match x {
+                            Fv::N(n) => {
+                                self.vars.insert(v.clone(), n);
+                            }
+                            Fv::S(t) => {
+                                self.svars.insert(v.clone(), t);
+                            }
+                        }
                     }
                     if ok {
                         self.kinds.insert("INPUT-accepted");
@@ -1680,6 +1907,7 @@ pub fn model_session(p: &Prog, cmds: &[Cmd], max_steps: u64) -> Vec<ModelRun> {
     let mut m = M {
         p,
         vars: BTreeMap::new(),
+        svars: BTreeMap::new(),
         out: String::new(),
         rpos: 0,
         col: 0,
@@ -1698,7 +1926,7 @@ pub fn model_session(p: &Prog, cmds: &[Cmd], max_steps: u64) -> Vec<ModelRun> {
         for s in &l.sts {
             if let St::Data(ns) = s {
                 for n in ns {
-                    m.data.push((li, *n));
+                    m.data.push((li, n.clone()));
                 }
             }
         }
@@ -1766,6 +1994,7 @@ pub fn model_session(p: &Prog, cmds: &[Cmd], max_steps: u64) -> Vec<ModelRun> {
             Cmd::Run(l) => {
                 // RUN = CLEAR + GOTO
                 m.vars.clear();
+                m.svars.clear();
                 m.stack.clear();
                 m.fns.clear();
                 m.dpos = 0;
